@@ -489,7 +489,45 @@ def w7_ba(run: Run, prog: Program):
                 f"documented are created")
 
 
+def w8(run: Run, prog: Program):
+    """A rebuild of an existing network from an edge list keeps its size: outside
+    the constructor, `self.set_edge_list(edges)` must pass the node count,
+    otherwise N is re-derived as (largest linked node + 1) and trailing isolated
+    nodes disappear (rewiring must keep every node and its degree)."""
+    net = prog.classes.get("Network")
+    target = net.methods.get("set_edge_list") if net else None
+    if target is None:
+        raise AnalysisError("Network.set_edge_list vanished")
+    # does omitting n_nodes really re-derive N from the edges?
+    derives = any(isinstance(n, ast.Call) and isinstance(n.func, ast.Attribute)
+                  and n.func.attr == "max" for n in ast.walk(target.node))
+    k = 0
+    for f in prog.functions():
+        if f.cls is None or net not in f.cls.mro or f.name == "__init__" or f is target:
+            continue
+        sn = f.params[0] if f.params else None
+        for c in ast.walk(f.node):
+            if isinstance(c, ast.Call) and isinstance(c.func, ast.Attribute) and \
+                    c.func.attr == "set_edge_list" and isinstance(c.func.value, ast.Name) \
+                    and c.func.value.id == sn:
+                k += 1
+                has_n = len(c.args) >= 2 or any(kw.arg == "n_nodes" for kw in c.keywords)
+                ok = has_n or not derives
+                run.oblige("W8", f"{f.qualname}:set_edge_list@{c.lineno}", ok, sample={
+                    "where": f"{f.module.relpath}:{c.lineno}"})
+                if not ok:
+                    run.add("W8", f"{f.qualname}/set_edge_list/no-size",
+                            f"{f.module.relpath}:{c.lineno}",
+                            f"{f.qualname} rebuilds the network with "
+                            f"`{ast.unparse(c)}` without n_nodes: set_edge_list then "
+                            f"takes N = largest linked node + 1, so isolated nodes at "
+                            f"the end of the numbering vanish and N changes")
+    run.count("W8", k)
+
+
 def check(run: Run, prog: Program, cy: CyProgram, sites):
+    run.rule("W8", "rebuilding an existing network from an edge list passes the node "
+             "count (isolated nodes survive rewiring)")
     run.rule("W1", "a rewiring swap removes and adds the same end-point multiset, "
              "under a guard that rules out double links and loops, and keeps the "
              "link list consistent")
@@ -510,6 +548,7 @@ def check(run: Run, prog: Program, cy: CyProgram, sites):
     w2(run, prog, cy)
     w3(run, cy)
     w4(run, prog)
+    w8(run, prog)
     n = report_sites(run, "W4", sites, lambda s: s.kernel.name.startswith(
         ("_randomly_rewire_geomodel", "_randomlySetCrossLinks",
          "_randomlyRewireCrossLinks")))
